@@ -300,7 +300,12 @@ func (f *Frame) execUnOp(in *ssa.UnOp, st *State) {
 		f.set(in, c.load(st, sh))
 		if g, ok := in.X.(*ssa.Global); ok && g.Pkg != nil && !strings.HasPrefix(g.Pkg.Pkg.Path(), modulePath) && types.IsInterface(in.Type()) && (strings.HasPrefix(g.Name(), "Err") || g.Name() == "EOF") {
 			c.note("assumed", "exported error variables of dependencies ("+g.Pkg.Pkg.Name()+"."+g.Name()+", ...) are non-nil")
-			st.assume(c, Not(Eq(f.vals[in][0], IntLit(0))))
+			if f.spec {
+				// in specification code path conditions become ite conditions; state the assumption as a side fact
+				c.addFactOrAssert(Not(Eq(f.vals[in][0], IntLit(0))))
+			} else {
+				st.assume(c, Not(Eq(f.vals[in][0], IntLit(0))))
+			}
 		}
 	case token.NOT:
 		f.set(in, []Term{Not(x[0])})
@@ -432,6 +437,16 @@ func (f *Frame) binop(in *ssa.BinOp, st *State) []Term {
 		// bounds for non-negative operands
 		if _, uns := isUnsigned(in.Type()); uns && in.Op == token.AND {
 			st.assume(c, And(Le(r, a), Le(r, b2)))
+		}
+		// non-negative operands: a|b = a + b - (a&b) and a^b = a + b - 2(a&b) with 0 <= a&b <= min(a,b)
+		nonneg := And(Ge(a, IntLit(0)), Ge(b2, IntLit(0)))
+		switch in.Op {
+		case token.OR:
+			st.assume(c, Implies(nonneg, And(Ge(r, a), Ge(r, b2), Le(r, Add(a, b2)))))
+		case token.XOR:
+			st.assume(c, Implies(nonneg, And(Ge(r, IntLit(0)), Le(r, Add(a, b2)))))
+		case token.AND:
+			st.assume(c, Implies(nonneg, And(Ge(r, IntLit(0)), Le(r, a), Le(r, b2))))
 		}
 	}
 	return []Term{r}
